@@ -578,7 +578,46 @@ def check_case(case, ctx):
         raise HarnessError("unknown case kind %r" % (k,))
 
 
+_FIXED_SPEC = {"dtls": False, "version": [3, 3], "random": bytes(range(32)), "sid": bytes(range(32)), "cookie": b"",
+               "ciphers": [0x1301, 0x1302, 0xC02B, 0xC02F, 0x00FF], "comp": b"\x00",
+               "exts": [[0x0A0A, "raw", b""], [0, "sni", [[0, b"www.example.com"]]], [23, "raw", b""], [10, "raw", b"\x00\x04\x00\x1d\x00\x17"],
+                        [16, "alpn", [b"h2", b"http/1.1"]], [43, "raw", b"\x02\x03\x04"], [21, "raw", b"\x00" * 9]]}
+
+
+def _exhaustive_fragmentations(ctx):
+    """every fragmentation of one representative hello into 1, 2 or 3 records (all cut pairs), sharded; for each: the
+    complete stream gives the reference result and the stream minus its last byte gives None"""
+    body = R.build_body(_FIXED_SPEC)
+    msg = R.handshake_message(body)
+    truth = R.parse_body(body)
+    n = len(msg)
+    k = 0
+    count = 0
+    for a in range(1, n):
+        for b in range(a, n):
+            k += 1
+            if k % ctx.nshards != ctx.shard:
+                continue
+            cuts = [a] if a == b else [a, b]
+            stream, ends = R.tls_records(msg, cuts, (3, 1))
+            ctx.cur_case = {"kind": "built", "spec": _FIXED_SPEC, "recv": [3, 1], "rcuts": cuts, "scuts": [], "allprefix": False,
+                            "trailing": b"", "layer": False}
+            ctx.ev()
+            count += 1
+            res = _parse(stream, False, ctx, "tls")
+            if res[0] != "hello":
+                ctx.fail("fragmentation-changes-result:tls", "cuts %r gave %s" % (cuts, res[0]))
+                continue
+            _compare(res[1], truth, ctx, "tls")
+            r2 = _parse(stream[:-1], False, ctx, "tls")
+            if r2[0] != "none":
+                ctx.fail("prefix-not-incomplete:tls:%s" % r2[0], "cuts %r, last byte missing" % (cuts,))
+    ctx.nt(("exhaustive-2cut", ctx.shard), "exhaustive-2cut-fragmentations")
+    ctx.extra["exhaustive_1_and_2_cut_fragmentations_of_fixed_hello"] = count
+
+
 def run(ctx):
+    _exhaustive_fragmentations(ctx)
     hyp(ctx, strategy(ctx), check_case, ctx.n(QUICK_N, THOROUGH_N))
     if ctx.thorough and not os.environ.get("VERIF_NO_ATHERIS"):
         _atheris_stage(ctx)
